@@ -418,6 +418,10 @@ fn step(ctx: &mut Ctx, line: &str) -> String {
             let Some(b) = unhex(h) else { return "bad-op".into() };
             oracle::redb_line(ctx, ty, &b)
         }
+        ["redbraw", "txouts", h] => {
+            let Some(b) = unhex(h) else { return "bad-op".into() };
+            oracle::redbraw_line(ctx, &b)
+        }
         ["cmp", a, b] => {
             let (Some(a), Some(b)) = (unhex(a), unhex(b)) else { return "bad-op".into() };
             let o = <bsl::OutPoint as bitcoin_slices::redb::RedbKey>::compare(&a, &b);
